@@ -87,7 +87,7 @@ LADDER = [7, 8, 9, 15, 16, 17, 31, 32, 33, 63, 64, 65, 100, 127, 128, 129, 255, 
 LADDER = sorted(set(LADDER) | set(range(7, 131)))
 LADDER_X = [2047, 2048, 2049, 4095, 4096, 4097, 10001]
 LADDER_POW = [63, 64, 65, 255, 256, 257, 1023, 1024, 1025]
-INDEX_KINDS = ["shifted", "datetime", "labels", "multi"]
+INDEX_KINDS = ["shifted", "datetime", "datetime-descending", "datetime-shuffled", "integers-descending", "labels", "multi"]
 BUILDS = ["block-C", "block-F", "block-f32", "block-strided", "block-readonly"]
 
 
@@ -296,6 +296,14 @@ def ladder_index(pd, kind, n):
         return pd.RangeIndex(5, 5 + 3 * n, 3)
     if kind == "datetime":
         return pd.date_range("2001-02-03", periods=n, freq="h")
+    if kind == "datetime-descending":
+        return pd.date_range("2001-02-03", periods=n, freq="h")[::-1]
+    if kind == "datetime-shuffled":
+        # a fixed permutation (stride coprime with n)
+        st = next(k for k in (7, 11, 13, 17, 19, 23, 29) if n % k != 0)
+        return pd.date_range("2001-02-03", periods=n, freq="D")[[(i * st + 3) % n for i in range(n)]]
+    if kind == "integers-descending":
+        return pd.RangeIndex(n - 1, -1, -1)
     if kind == "labels":
         return pd.Index(["row, %d" % (n - i) for i in range(n)])
     if kind == "multi":
@@ -422,6 +430,14 @@ def check_case(ctx, csv, pd, case):
             viol("%s:write-raised:%s" % (mk, type(e).__name__), case,
                           "write_csv raised %r" % (e,))
             return
+        if case.get("later_sibling") and mode in ("zip-csv", "zip-zip", "zip-noext"):
+            # folder history: AFTER the judged file another frame is stored under a name that differs only behind a dot
+            old = pd.DataFrame({"later": [1.5, 2.5, 3.5], "other": [7, 8, 9]})
+            try:
+                csv.write_csv(old, base / (stem + ".v9.csv"), {"info": "later sibling"}, SOURCE, compress=True, **kw)
+                ctx.count("later_sibling_in_folder")
+            except Exception:
+                ctx.count("later_sibling_in_folder.write-raised")
         # ---- read
         try:
             if mode == "archive":
@@ -564,6 +580,14 @@ def run_unit(unit, ctx):
                             continue
                         case["stale"] = True
                         check_case(ctx, csv, pd, case)
+                    for smode in ("zip-csv", "zip-zip", "zip-noext"):
+                        for stem in ("x", "d.v2"):
+                            case = build_case(smode, layout, ti, ci, (), al)
+                            if case is None:
+                                continue
+                            case["later_sibling"] = True
+                            case["stem"] = stem
+                            check_case(ctx, csv, pd, case)
         return
     if unit["kind"] == "ladder":
         for case in ladder_cases(unit, al):
